@@ -384,6 +384,17 @@ impl FinalityTracker {
     }
 }
 
+#[cfg(feature = "verif-hooks")]
+impl FinalityTracker {
+    /// Lowest tracked slot and number of entries of the status and parent maps (verification hook).
+    pub(super) fn verif_retained(&self) -> [(Option<Slot>, usize); 2] {
+        [
+            (self.status.keys().next().copied(), self.status.len()),
+            (self.parents.keys().next().map(|(s, _)| *s), self.parents.len()),
+        ]
+    }
+}
+
 #[cfg(test)]
 mod tests {
     use super::*;
